@@ -6,9 +6,11 @@ export CARGO_TARGET_DIR="$wt/target" CARGO_NET_OFFLINE=true
 cd "$wt" || exit 3
 git checkout -q -- . ; git clean -fdq -e out -e target
 tests=$(cd "$m/demo" && ls *.rs 2>/dev/null | sed 's/\.rs$//')
-put_demo() { mkdir -p sqllogictest/tests; cp "$m"/demo/*.rs sqllogictest/tests/; }
-del_demo() { rm -rf sqllogictest/tests; }
-run_demo() { rc=0; for t in $tests; do cargo test -q -p sqllogictest --offline --test "$t" >/tmp/demo_$$.log 2>&1 || rc=1; done; return $rc; }
+pkg=sqllogictest
+if grep -q "sqllogictest-bin/tests" "$m"/demo/README.md "$m"/meta.json 2>/dev/null; then pkg=sqllogictest-bin; fi
+put_demo() { mkdir -p $pkg/tests; cp "$m"/demo/*.rs $pkg/tests/; }
+del_demo() { rm -rf $pkg/tests; }
+run_demo() { rc=0; for t in $tests; do cargo test -q -p $pkg --offline --test "$t" >/tmp/demo_$$.log 2>&1 || rc=1; done; return $rc; }
 put_demo; run_demo; clean_rc=$?
 git apply "$m/patch.diff" || { echo "APPLY-FAILED"; exit 3; }
 run_demo; mut_rc=$?
